@@ -12,6 +12,9 @@ import GlotaranProofs.Lemmas.C06
 import GlotaranProofs.Lemmas.C06Reorder
 import GlotaranProofs.Lemmas.C06Tables
 import GlotaranProofs.Lemmas.C06LS
+import GlotaranProofs.Lemmas.C06Full
+import GlotaranProofs.Lemmas.C06Gen
+import GlotaranProofs.Lemmas.C06Linked
 namespace Glotaran.C06
 open Glotaran.LinAlg Glotaran.C02
 
@@ -642,5 +645,590 @@ example : isSequential ["s2", "s1"] [1/2, 1] [⟨"s2", "s1", 1⟩] = some false 
 
 /-- a chain declared in chain order and started in its first compartment is classified sequential -/
 example : isSequential ["s1", "s2"] [1, 0] [⟨"s2", "s1", 1⟩, ⟨"s2", "s2", 1/2⟩] = some true := by decide +kernel
+
+/-! ## 6. Full models (datasets with global megacomplexes): everything follows the *pair* of labels -/
+
+/-- **ls_perm_equivariant** for any label type (for the full model the labels are pairs
+    (global clp label, clp label)). -/
+theorem ls_perm_equivariant_by {α : Type} [BEq α] [LawfulBEq α] (labels wanted : List α) (m : Mat) (y c : Vec)
+    (hne : m ≠ []) (hl : labels.Nodup) (hw : wanted.Perm labels) (hm : ∀ row ∈ m, row.length = labels.length)
+    (hsol : isNormalSol m y c = true) :
+    isNormalSol (reorderColsBy labels m wanted) y (reorderVecBy labels c wanted) = true ∧
+    residual (reorderColsBy labels m wanted) y (reorderVecBy labels c wanted) = residual m y c := by
+  simp only [isNormalSol, Bool.and_eq_true, beq_iff_eq] at hsol
+  obtain ⟨hlen, hgrad⟩ := hsol
+  have hc : c.length = labels.length := by rw [hlen, ncols_of_rows m labels.length hne hm]
+  refine ⟨?_, reorder_residual_by labels wanted m y c hl hw hm hc⟩
+  simp only [isNormalSol, Bool.and_eq_true, beq_iff_eq]
+  refine ⟨?_, ?_⟩
+  · rw [ncols_reorderColsBy labels wanted m hne]; simp [reorderVecBy]
+  · rw [gradient_reorder_by labels wanted m y c hne hl hw hm hc]
+    exact all_zero_reorderVecBy labels wanted _ hgrad
+
+example :
+    isNormalSol (reorderColsBy [("g", "a"), ("g", "b")] [[1, 0], [0, 1], [0, 1]] [("g", "b"), ("g", "a")]) [1, 2, 2]
+      (reorderVecBy [("g", "a"), ("g", "b")] [1, 2] [("g", "b"), ("g", "a")]) = true ∧
+    residual (reorderColsBy [("g", "a"), ("g", "b")] [[1, 0], [0, 1], [0, 1]] [("g", "b"), ("g", "a")]) [1, 2, 2]
+      (reorderVecBy [("g", "a"), ("g", "b")] [1, 2] [("g", "b"), ("g", "a")]) = residual [[1, 0], [0, 1], [0, 1]] [1, 2, 2] [1, 2] :=
+  ls_perm_equivariant_by [("g", "a"), ("g", "b")] [("g", "b"), ("g", "a")] _ _ _ (by decide) (by decide)
+    (List.Perm.swap _ _ []) (by decide) (by decide +kernel)
+
+/-- the fit is unchanged under a re-ordering of the columns by label, for any label type -/
+theorem fit_unchanged_under_permutation_by {α : Type} [BEq α] [LawfulBEq α] (labels wanted : List α) (m : Mat)
+    (y c c' r r' : Vec) (hne : m ≠ []) (hl : labels.Nodup) (hw : wanted.Perm labels)
+    (hm : ∀ row ∈ m, row.length = labels.length) (hy : y.length = m.length)
+    (h : solveLS .vp m y = some (c, r)) (h' : solveLS .vp (reorderColsBy labels m wanted) y = some (c', r')) :
+    r' = r ∧ isNormalSol (reorderColsBy labels m wanted) y (reorderVecBy labels c wanted) = true := by
+  simp only [solveLS] at h h'
+  cases hs : lsExact m y with
+  | none => simp [hs] at h
+  | some c0 =>
+    cases hs' : lsExact (reorderColsBy labels m wanted) y with
+    | none => simp [hs'] at h'
+    | some c0' =>
+      simp only [hs, Option.some.injEq, Prod.mk.injEq] at h
+      simp only [hs', Option.some.injEq, Prod.mk.injEq] at h'
+      obtain ⟨rfl, rfl⟩ := h
+      obtain ⟨rfl, rfl⟩ := h'
+      have hsol := lsExact_isNormalSol m y c0 hs
+      have hsol' := lsExact_isNormalSol _ y c0' hs'
+      obtain ⟨hperm, hres⟩ := ls_perm_equivariant_by labels wanted m y c0 hne hl hw hm hsol
+      refine ⟨?_, hperm⟩
+      rw [← hres]
+      have hne' : reorderColsBy labels m wanted ≠ [] := by
+        cases m with
+        | nil => exact absurd rfl hne
+        | cons _ _ => simp [reorderColsBy]
+      have hrows : ∀ row ∈ reorderColsBy labels m wanted, row.length = wanted.length := by
+        intro row hrow
+        simp only [reorderColsBy, List.mem_map] at hrow
+        obtain ⟨_, _, rfl⟩ := hrow
+        simp
+      exact ls_fit_unique _ y c0' _ hne' wanted.length hrows (by simpa [reorderColsBy] using hy) hsol' hperm
+
+/-- **global_matrix_entry.** The global matrix (rows = global axis) by label: the column under a global clp
+    label is the sum over the dataset's *global* megacomplexes of `scale ×` their column under that label; a
+    permutation of the global megacomplexes (with their scales) changes no labelled column. -/
+theorem global_matrix_entry (d : Dataset) (gm : LMat) (h : datasetMatrix d.gmcs = some gm)
+    (hs : ∀ o ∈ d.gmcs, Shaped o.out.body d.nGlobal 1) (G : String) (g : Nat) :
+    entry gm G 0 g = (d.gmcs.map (fun o => factor o * entry o.out G 0 g)).sum ∧
+    ∀ gmcs', gmcs'.Perm d.gmcs → ∃ gm', datasetMatrix gmcs' = some gm' ∧ entry gm' G 0 g = entry gm G 0 g := by
+  refine ⟨datasetMatrix_entry d.gmcs gm h d.nGlobal 1 hs G 0 g (by decide), ?_⟩
+  intro gmcs' hp
+  obtain ⟨gm', hgm', he⟩ := datasetMatrix_perm d.gmcs gmcs' hp gm h d.nGlobal 1 hs
+  exact ⟨gm', hgm', he G 0 g (by decide)⟩
+
+/-- a dataset with a global model: 2 time points × 3 global points, weighted; model megacomplexes with the shared
+    label `s2` (one of them scaled), two global megacomplexes sharing `g1` -/
+def exampleFull : Dataset :=
+  { label := "f", globalAxis := [0, 1, 2], data := [[1, 2, 3], [4, 5, 6]], weight := some [[1, 1, 2], [1, 3, 1]],
+    scale := none,
+    mcs := [⟨⟨["s1", "s2"], .d2 [[1, 2], [3, 4]]⟩, none⟩, ⟨⟨["s2"], .d2 [[1], [1]]⟩, some 2⟩],
+    gmcs := [⟨⟨["g1", "g2"], .d2 [[1, 0], [1, 1], [2, 5]]⟩, none⟩, ⟨⟨["g1"], .d2 [[1], [0], [1]]⟩, some 3⟩] }
+
+/-- the same dataset with both megacomplex lists declared in the other order -/
+def exampleFullTwin : Dataset :=
+  { exampleFull with mcs := exampleFull.mcs.reverse, gmcs := exampleFull.gmcs.reverse }
+
+example : entry ((datasetMatrix exampleFull.gmcs).getD default) "g1" 0 2 =
+    (exampleFull.gmcs.map (fun o => factor o * entry o.out "g1" 0 2)).sum ∧
+    (exampleFull.gmcs.map (fun o => factor o * entry o.out "g1" 0 2)).sum = 2 + 3 * 1 := by
+  refine ⟨(global_matrix_entry exampleFull _ rfl ?_ "g1" 2).1, by decide +kernel⟩
+  intro o ho
+  simp only [exampleFull, List.mem_cons, List.not_mem_nil, or_false] at ho
+  rcases ho with rfl | rfl <;> simp [Shaped, Dataset.nGlobal, exampleFull]
+
+/-- **full_matrix_entry.** The matrix handed to the solver for a full model, read by label pair: in the row of
+    data point (`m`, `g`) the column of the pair (global clp label `G`, clp label `L`) holds
+    `weight[m][g] × (Σ global megacomplexes scale × their G-column at g) × (Σ megacomplexes scale × their L-column at (g, m))`
+    — whatever the order of either megacomplex list and of the labels inside the megacomplexes. -/
+theorem full_matrix_entry (d : Dataset) (lm gm : LMat) (G a : Mat) (y : Vec)
+    (hlm : datasetMatrix d.mcs = some lm) (hgm : datasetMatrix d.gmcs = some gm) (hGb : gm.body = .d2 G)
+    (h : fullModelProblem d = some (a, y))
+    (hm : ∀ o ∈ d.mcs, Rect o.out d.nModel d.nGlobal) (hg : ∀ o ∈ d.gmcs, Rect o.out d.nGlobal 1)
+    (hw : ∀ w, d.weight = some w → w.length = d.nModel)
+    (Gl Ll : String) (hGl : Gl ∈ gm.labels) (hLl : Ll ∈ lm.labels) (g m : Nat) (hgn : g < d.nGlobal) (hmn : m < d.nModel) :
+    (a.getD (g * d.nModel + m) []).getD ((fullLabels gm.labels lm.labels).idxOf (Gl, Ll)) 0 =
+      weightAt d m g * ((d.gmcs.map (fun o => factor o * entry o.out Gl 0 g)).sum *
+        (d.mcs.map (fun o => factor o * entry o.out Ll g m)).sum) := by
+  have hrl : Rect lm d.nModel d.nGlobal := datasetMatrix_rect d.mcs lm hlm _ _ hm (by omega)
+  have hrg : Rect gm d.nGlobal 1 := datasetMatrix_rect d.gmcs gm hgm _ _ hg (by decide)
+  have hsG : sliceMat gm 0 = G := by simp [sliceMat, hGb]
+  have hGlen : G.length = d.nGlobal := by
+    have := sliceMat_length gm d.nGlobal 1 hrg.2.1 0 (by decide); rwa [hsG] at this
+  rw [fullModelProblem_eq d lm gm G hlm hgm hGb hrl.2.1 hGlen] at h
+  simp only [Option.some.injEq, Prod.mk.injEq] at h
+  obtain ⟨ha, _⟩ := h
+  rw [← ha, full_row_getD d G lm hrl.2.1 hw g m _ hgn hmn, fullRows_row G lm d.nModel d.nGlobal hrl.2.1 g m hgn hmn]
+  have hGw : (G.getD g []).length = gm.labels.length := by
+    have hmem : G.getD g [] ∈ G := by
+      simp [List.getD_eq_getElem?_getD, List.getElem?_eq_getElem (show g < G.length by omega)]
+    exact hrg.2.2 0 (by decide) (G.getD g []) (by rw [hsG]; exact hmem)
+  have hMw : ((sliceMat lm g).getD m []).length = lm.labels.length := by
+    have hml : m < (sliceMat lm g).length := by rw [sliceMat_length lm _ _ hrl.2.1 g hgn]; exact hmn
+    have hmem : (sliceMat lm g).getD m [] ∈ sliceMat lm g := by
+      simp [List.getD_eq_getElem?_getD, List.getElem?_eq_getElem hml]
+    exact hrl.2.2 g hgn _ hmem
+  rw [kron_getD gm.labels lm.labels _ _ hGw hMw Gl Ll hLl]
+  have e1 := entry_idxOf gm d.nGlobal 1 hrg Gl hGl 0 g (by decide)
+  have e2 := entry_idxOf lm d.nModel d.nGlobal hrl Ll hLl g m hgn
+  rw [hsG] at e1
+  rw [← e1, ← e2, datasetMatrix_entry d.gmcs gm hgm d.nGlobal 1 (fun o ho => (hg o ho).2.1) Gl 0 g (by decide),
+    datasetMatrix_entry d.mcs lm hlm d.nModel d.nGlobal (fun o ho => (hm o ho).2.1) Ll g m hgn]
+
+private theorem exampleFull_rect :
+    (∀ o ∈ exampleFull.mcs, Rect o.out exampleFull.nModel exampleFull.nGlobal) ∧
+    (∀ o ∈ exampleFull.gmcs, Rect o.out exampleFull.nGlobal 1) := by
+  constructor
+  · intro o ho
+    simp only [exampleFull, List.mem_cons, List.not_mem_nil, or_false] at ho
+    rcases ho with rfl | rfl
+    · refine ⟨by decide, by simp [Shaped, Dataset.nModel, exampleFull], ?_⟩
+      intro i _ row hrow
+      simp only [sliceMat, List.mem_cons, List.not_mem_nil, or_false] at hrow
+      rcases hrow with rfl | rfl <;> rfl
+    · refine ⟨by decide, by simp [Shaped, Dataset.nModel, exampleFull], ?_⟩
+      intro i _ row hrow
+      simp only [sliceMat, List.mem_cons, List.not_mem_nil, or_false] at hrow
+      rcases hrow with rfl | rfl <;> rfl
+  · intro o ho
+    simp only [exampleFull, List.mem_cons, List.not_mem_nil, or_false] at ho
+    rcases ho with rfl | rfl
+    · refine ⟨by decide, by simp [Shaped, Dataset.nGlobal, exampleFull], ?_⟩
+      intro i _ row hrow
+      simp only [sliceMat, List.mem_cons, List.not_mem_nil, or_false] at hrow
+      rcases hrow with rfl | rfl | rfl <;> rfl
+    · refine ⟨by decide, by simp [Shaped, Dataset.nGlobal, exampleFull], ?_⟩
+      intro i _ row hrow
+      simp only [sliceMat, List.mem_cons, List.not_mem_nil, or_false] at hrow
+      rcases hrow with rfl | rfl | rfl <;> rfl
+
+/-- data point (m, g) = (1, 2), pair (g1, s2): weight 1 × (2 + 3·1) × (4 + 2·1) = 30 sits in row 2·2 + 1, column
+    `idxOf (g1, s2)` = 1 of the solver's matrix -/
+example : ∃ a y, fullModelProblem exampleFull = some (a, y) ∧
+    (a.getD (2 * exampleFull.nModel + 1) []).getD ((fullLabels ["g1", "g2"] ["s1", "s2"]).idxOf ("g1", "s2")) 0 =
+      weightAt exampleFull 1 2 * ((exampleFull.gmcs.map (fun o => factor o * entry o.out "g1" 0 2)).sum *
+        (exampleFull.mcs.map (fun o => factor o * entry o.out "s2" 2 1)).sum) ∧
+    (a.getD 5 []).getD 1 0 = 30 := by
+  refine ⟨_, _, rfl, ?_, by decide +kernel⟩
+  exact full_matrix_entry exampleFull ⟨["s1", "s2"], _⟩ ⟨["g1", "g2"], _⟩ _ _ _ rfl rfl rfl rfl exampleFull_rect.1
+    exampleFull_rect.2 (by intro w hw; cases hw; rfl) "g1" "s2" (by decide) (by decide) 2 1 (by decide) (by decide)
+
+/-- **full_model_perm.** Declare the megacomplexes and the global megacomplexes of a dataset in any other order
+    (scales following their megacomplex): the data vector handed to the solver is the same, and the matrix is the
+    same matrix with its columns re-ordered by the *pair* (global clp label, clp label) — the column of a pair holds
+    the same numbers in both declaration orders. -/
+theorem full_model_perm (d d' : Dataset) (lm lm' gm gm' : LMat) (G G' : Mat)
+    (hax : d'.globalAxis = d.globalAxis) (hdata : d'.data = d.data) (hwt : d'.weight = d.weight)
+    (hpm : d'.mcs.Perm d.mcs) (hpg : d'.gmcs.Perm d.gmcs)
+    (hlm : datasetMatrix d.mcs = some lm) (hgm : datasetMatrix d.gmcs = some gm)
+    (hlm' : datasetMatrix d'.mcs = some lm') (hgm' : datasetMatrix d'.gmcs = some gm')
+    (hGb : gm.body = .d2 G) (hGb' : gm'.body = .d2 G')
+    (hm : ∀ o ∈ d.mcs, Rect o.out d.nModel d.nGlobal) (hg : ∀ o ∈ d.gmcs, Rect o.out d.nGlobal 1)
+    (hw : ∀ w, d.weight = some w → w.length = d.nModel) (hpos : 0 < d.nGlobal) :
+    ∃ a y, fullModelProblem d = some (a, y) ∧
+      fullModelProblem d' = some
+        (reorderColsBy (fullLabels gm.labels lm.labels) a (fullLabels gm'.labels lm'.labels), y) ∧
+      (fullLabels gm'.labels lm'.labels).Perm (fullLabels gm.labels lm.labels) ∧
+      (fullLabels gm.labels lm.labels).Nodup ∧
+      (∀ row ∈ a, row.length = (fullLabels gm.labels lm.labels).length) ∧
+      a.length = d.nGlobal * d.nModel ∧ y.length = d.nGlobal * d.nModel := by
+  have hnM : d'.nModel = d.nModel := by simp [Dataset.nModel, hdata]
+  have hnG : d'.nGlobal = d.nGlobal := by simp [Dataset.nGlobal, hax]
+  have hm' : ∀ o ∈ d'.mcs, Rect o.out d.nModel d.nGlobal := fun o ho => hm o (hpm.subset ho)
+  have hg' : ∀ o ∈ d'.gmcs, Rect o.out d.nGlobal 1 := fun o ho => hg o (hpg.subset ho)
+  have hrl := datasetMatrix_rect d.mcs lm hlm _ _ hm hpos
+  have hrl' := datasetMatrix_rect d'.mcs lm' hlm' _ _ hm' hpos
+  have hrg := datasetMatrix_rect d.gmcs gm hgm _ _ hg (by decide)
+  have hrg' := datasetMatrix_rect d'.gmcs gm' hgm' _ _ hg' (by decide)
+  have hGlen : ∀ (gm : LMat) (G : Mat), gm.body = .d2 G → Rect gm d.nGlobal 1 → G.length = d.nGlobal := by
+    intro gm G hb hr
+    have hsG : sliceMat gm 0 = G := by simp [sliceMat, hb]
+    have := sliceMat_length gm d.nGlobal 1 hr.2.1 0 (by decide); rwa [hsG] at this
+  -- labelled entries agree
+  obtain ⟨lm'', hlm'', hel⟩ := datasetMatrix_perm d.mcs d'.mcs hpm lm hlm d.nModel d.nGlobal (fun o ho => (hm o ho).2.1)
+  obtain ⟨gm'', hgm'', heg⟩ := datasetMatrix_perm d.gmcs d'.gmcs hpg gm hgm d.nGlobal 1 (fun o ho => (hg o ho).2.1)
+  rw [hlm'] at hlm''; cases hlm''
+  rw [hgm'] at hgm''; cases hgm''
+  have hpl : lm'.labels.Perm lm.labels :=
+    datasetMatrix_labels_perm d.mcs d'.mcs hpm lm lm' hlm hlm' (fun o ho => (hm o ho).1)
+  have hpgl : gm'.labels.Perm gm.labels :=
+    datasetMatrix_labels_perm d.gmcs d'.gmcs hpg gm gm' hgm hgm' (fun o ho => (hg o ho).1)
+  have hfr := fullRows_reorder G G' lm lm' gm gm' d.nModel d.nGlobal hGb hGb' hrl hrl' hrg hrg' hpl hpgl hel heg
+  have e := fullModelProblem_eq d lm gm G hlm hgm hGb hrl.2.1 (hGlen gm G hGb hrg)
+  have e' := fullModelProblem_eq d' lm' gm' G' hlm' hgm' hGb' (by rw [hnM, hnG]; exact hrl'.2.1)
+    (by rw [hnG]; exact hGlen gm' G' hGb' hrg')
+  have hwd : d'.weightedData = d.weightedData := by simp [Dataset.weightedData, hdata, hwt]
+  have hwidth := fullRows_width G lm gm d.nModel d.nGlobal hGb hrl hrg
+  have hlen := fullRows_length G lm d.nModel d.nGlobal hrl.2.1
+  refine ⟨_, _, e, ?_, fullLabels_perm _ _ _ _ hrg.1 hrl.1 hpgl hpl, fullLabels_nodup _ _ hrg.1 hrl.1, ?_, ?_,
+    flat_data_length d hw⟩
+  · rw [e', hnG, hwt, hwd, hfr]
+    cases d.weight with
+    | none => rfl
+    | some w => simp only [reorderColsBy_weightRows]
+  · cases d.weight with
+    | none => exact hwidth
+    | some w => exact weightRows_width _ _ _ hwidth
+  · cases hwd : d.weight with
+    | none => exact hlen
+    | some w =>
+      simp only
+      rw [weightRows_length _ _ (by rw [flatCols_length, hlen, hw w hwd]), hlen]
+
+/-- the two declaration orders of `exampleFull`: the solver sees the same data and a column-permuted matrix;
+    e.g. the pair (g1, s2) sits in column 1 in one order and in column 2 in the other -/
+example : ∃ a y, fullModelProblem exampleFull = some (a, y) ∧
+    fullModelProblem exampleFullTwin = some
+      (reorderColsBy (fullLabels ["g1", "g2"] ["s1", "s2"]) a (fullLabels ["g1", "g2"] ["s2", "s1"]), y) := by
+  obtain ⟨a, y, h1, h2, _⟩ := full_model_perm exampleFull exampleFullTwin ⟨["s1", "s2"], _⟩ ⟨["s2", "s1"], _⟩
+    ⟨["g1", "g2"], _⟩ ⟨["g1", "g2"], _⟩ _ _ rfl rfl rfl (List.reverse_perm _) (List.reverse_perm _) rfl rfl rfl rfl rfl rfl
+    exampleFull_rect.1 exampleFull_rect.2 (by intro w hw; cases hw; rfl) (by decide)
+  exact ⟨a, y, h1, h2⟩
+
+example : (fullLabels ["g1", "g2"] ["s1", "s2"]).idxOf ("g1", "s2") = 1 ∧
+    (fullLabels ["g1", "g2"] ["s2", "s1"]).idxOf ("g1", "s2") = 0 ∧
+    ((fullModelProblem exampleFull).map (fun p => col p.1 1)) =
+      ((fullModelProblem exampleFullTwin).map (fun p => col p.1 0)) := by decide +kernel
+
+/-- **full_clp_by_label.** The reported `clp` of a full model has the dimensions (global_clp_label, clp_label):
+    `clp.sel(global_clp_label=G, clp_label=L)` of the re-ordered coefficient vector, read with the twin's
+    coordinates, is the coefficient the original order reports under the same pair of labels. -/
+theorem full_clp_by_label (gl ml gl' ml' : List String) (c : Vec) (G L : String)
+    (hG : G ∈ gl) (hL : L ∈ ml) (hG' : G ∈ gl') (hL' : L ∈ ml') :
+    fullClpAt gl' ml' (reorderVecBy (fullLabels gl ml) c (fullLabels gl' ml')) G L = fullClpAt gl ml c G L := by
+  rw [fullClpAt_eq gl' ml' _ G L hG' hL', fullClpAt_eq gl ml c G L hG hL,
+    reorderVecBy_getD _ _ c (G, L) ((mem_fullLabels gl' ml' (G, L)).mpr ⟨hG', hL'⟩)]
+
+example : fullClpAt ["g2", "g1"] ["s2", "s1"]
+      (reorderVecBy (fullLabels ["g1", "g2"] ["s1", "s2"]) [1, 2, 3, 4] (fullLabels ["g2", "g1"] ["s2", "s1"])) "g1" "s2" =
+    fullClpAt ["g1", "g2"] ["s1", "s2"] [1, 2, 3, 4] "g1" "s2" ∧
+    fullClpAt ["g1", "g2"] ["s1", "s2"] [1, 2, 3, 4] "g1" "s2" = some 2 ∧
+    reorderVecBy (fullLabels ["g1", "g2"] ["s1", "s2"]) [1, 2, 3, 4] (fullLabels ["g2", "g1"] ["s2", "s1"]) = [4, 3, 2, 1] :=
+  ⟨full_clp_by_label _ _ _ _ _ "g1" "s2" (by decide) (by decide) (by decide) (by decide), by decide +kernel, by decide +kernel⟩
+
+/-- a label that is not a coordinate is a KeyError, never a neighbouring coefficient -/
+theorem full_clp_keyerror (gl ml : List String) (c : Vec) (G L : String) (h : G ∉ gl ∨ L ∉ ml) :
+    fullClpAt gl ml c G L = none := fullClpAt_keyerror gl ml c G L h
+
+example : fullClpAt ["g1", "g2"] ["s1", "s2"] [1, 2, 3, 4] "s1" "g1" = none :=
+  full_clp_keyerror _ _ _ _ _ (Or.inl (by decide))
+
+/-- **full_model_fit_perm.** The fit of a full model does not depend on the declaration order of the megacomplexes
+    and global megacomplexes: the residual vector the solver returns is identical, the re-ordered coefficients solve
+    the twin's normal equations, and they report every coefficient under the same pair of labels. -/
+theorem full_model_fit_perm (d d' : Dataset) (lm lm' gm gm' : LMat) (G G' : Mat)
+    (hax : d'.globalAxis = d.globalAxis) (hdata : d'.data = d.data) (hwt : d'.weight = d.weight)
+    (hpm : d'.mcs.Perm d.mcs) (hpg : d'.gmcs.Perm d.gmcs)
+    (hlm : datasetMatrix d.mcs = some lm) (hgm : datasetMatrix d.gmcs = some gm)
+    (hlm' : datasetMatrix d'.mcs = some lm') (hgm' : datasetMatrix d'.gmcs = some gm')
+    (hGb : gm.body = .d2 G) (hGb' : gm'.body = .d2 G')
+    (hm : ∀ o ∈ d.mcs, Rect o.out d.nModel d.nGlobal) (hg : ∀ o ∈ d.gmcs, Rect o.out d.nGlobal 1)
+    (hw : ∀ w, d.weight = some w → w.length = d.nModel) (hpos : 0 < d.nGlobal) (hposM : 0 < d.nModel)
+    (a a' : Mat) (y y' c r c' r' : Vec)
+    (h : fullModelProblem d = some (a, y)) (h' : fullModelProblem d' = some (a', y'))
+    (hs : solveLS .vp a y = some (c, r)) (hs' : solveLS .vp a' y' = some (c', r')) :
+    y' = y ∧ r' = r ∧
+    isNormalSol a' y' (reorderVecBy (fullLabels gm.labels lm.labels) c (fullLabels gm'.labels lm'.labels)) = true ∧
+    ∀ Gl ∈ gm.labels, ∀ Ll ∈ lm.labels,
+      fullClpAt gm'.labels lm'.labels
+        (reorderVecBy (fullLabels gm.labels lm.labels) c (fullLabels gm'.labels lm'.labels)) Gl Ll =
+      fullClpAt gm.labels lm.labels c Gl Ll := by
+  obtain ⟨a0, y0, h0, h0', hperm, hnodup, hwidth, halen, hylen⟩ :=
+    full_model_perm d d' lm lm' gm gm' G G' hax hdata hwt hpm hpg hlm hgm hlm' hgm' hGb hGb' hm hg hw hpos
+  rw [h] at h0
+  have ha0 : a0 = a := (Prod.mk.inj (Option.some.inj h0)).1.symm
+  have hy0 : y0 = y := (Prod.mk.inj (Option.some.inj h0)).2.symm
+  subst ha0 hy0
+  rw [h'] at h0'
+  have ha' : a' = _ := (Prod.mk.inj (Option.some.inj h0')).1
+  have hy' : y' = y0 := (Prod.mk.inj (Option.some.inj h0')).2
+  subst ha' hy'
+  have hne : a0 ≠ [] := by
+    intro hnil
+    rw [hnil] at halen
+    have : 0 < d.nGlobal * d.nModel := Nat.mul_pos hpos hposM
+    simp at halen
+    omega
+  obtain ⟨hr, hsol⟩ := fit_unchanged_under_permutation_by _ _ a0 y' c c' r r' hne hnodup hperm hwidth
+    (by rw [hylen, halen]) hs hs'
+  refine ⟨rfl, hr, hsol, ?_⟩
+  intro Gl hGl Ll hLl
+  have hrl := datasetMatrix_rect d.mcs lm hlm _ _ hm hpos
+  have hrg := datasetMatrix_rect d.gmcs gm hgm _ _ hg (by decide)
+  have hpl : lm'.labels.Perm lm.labels :=
+    datasetMatrix_labels_perm d.mcs d'.mcs hpm lm lm' hlm hlm' (fun o ho => (hm o ho).1)
+  have hpgl : gm'.labels.Perm gm.labels :=
+    datasetMatrix_labels_perm d.gmcs d'.gmcs hpg gm gm' hgm hgm' (fun o ho => (hg o ho).1)
+  exact full_clp_by_label _ _ _ _ c Gl Ll hGl hLl (hpgl.symm.subset hGl) (hpl.symm.subset hLl)
+
+/-- both declaration orders of `exampleFull` are solved, with the same residual -/
+example : ∃ a y c r a' y' c' r', fullModelProblem exampleFull = some (a, y) ∧ solveLS .vp a y = some (c, r) ∧
+    fullModelProblem exampleFullTwin = some (a', y') ∧ solveLS .vp a' y' = some (c', r') ∧ r' = r ∧ y' = y ∧
+    c' = reorderVecBy (fullLabels ["g1", "g2"] ["s1", "s2"]) c (fullLabels ["g1", "g2"] ["s2", "s1"]) := by
+  refine ⟨_, _, (((fullModelProblem exampleFull).bind (fun p => solveLS .vp p.1 p.2)).getD default).1,
+    (((fullModelProblem exampleFull).bind (fun p => solveLS .vp p.1 p.2)).getD default).2, _, _,
+    (((fullModelProblem exampleFullTwin).bind (fun p => solveLS .vp p.1 p.2)).getD default).1,
+    (((fullModelProblem exampleFullTwin).bind (fun p => solveLS .vp p.1 p.2)).getD default).2, rfl, ?_, rfl, ?_, ?_, ?_, ?_⟩ <;>
+  decide +kernel
+
+/-! ## 7. The label tables as regenerated from the source text (Generated/C06.lean)
+
+`Generated.*Labels` is the expression `calculate_matrix` builds its label list with, `Generated.*Fill` where the kernel
+stores its columns — both extracted from the source of VERIF_REPO on every run.  The theorems below say that *these*
+descriptors, evaluated with the Python semantics of `LabelExpr.eval` / `genOscCols` / …, give the tables of section 4, so
+that every `*_columns_match_labels` statement holds for the code as it is written now; a re-ordering of a label list or of
+the stores in the source changes the generated file and re-opens these proofs. -/
+
+theorem generated_osc_labels (labels : List String) :
+    Generated.dampedOscillationLabels.eval (oscEnv labels) = some (oscLabels labels) ∧
+    Generated.pfidLabels.eval (oscEnv labels) = some (oscLabels labels) := by
+  constructor <;>
+  · refine eval_append _ _ _ _ _ ?_ ?_
+    · exact eval_comp_attr _ _ _ labels (· ++ "_cos") rfl (fun x => render_suffix _ x "_cos")
+    · exact eval_comp_attr _ _ _ labels (· ++ "_sin") rfl (fun x => render_suffix _ x "_sin")
+
+/-- **the regenerated oscillation tables are the tables of section 4** (no-IRF loop, Gaussian-IRF kernel, PFID) -/
+theorem generated_osc_table (k : Kernel) (hk : k ≠ .noIrfOld) (os : List OscDecl) :
+    genOscTableFor k (os.map (·.1)) (os.map (·.2.1)) (os.map (·.2.2)) = some (oscTableOf k os) := by
+  obtain ⟨hl1, hl2⟩ := generated_osc_labels (os.map (·.1))
+  cases k with
+  | noIrfOld => exact absurd rfl hk
+  | noIrf =>
+    simp only [genOscTableFor, genOscTable, hl1]
+    have : genOscCols Generated.dampedOscillationNoIrfFill false (os.map (·.1)).length (os.map (·.2.1)) (os.map (·.2.2)) =
+        some (oscCols .noIrf (os.map (·.1)).length (os.map (·.2.1)) (os.map (·.2.2))) := by
+      simp [Generated.dampedOscillationNoIrfFill, genOscCols, fillLoop_new, oscCols]
+    rw [this]
+    rfl
+  | irf =>
+    simp only [genOscTableFor, genOscTable, hl1]
+    have : genOscCols Generated.dampedOscillationIrfFill false (os.map (·.1)).length (os.map (·.2.1)) (os.map (·.2.2)) =
+        some (oscCols .irf (os.map (·.1)).length (os.map (·.2.1)) (os.map (·.2.2))) := by
+      simp only [Generated.dampedOscillationIrfFill, genOscCols, concat_cols, oscCols]
+      simp
+    rw [this]
+    rfl
+  | pfid =>
+    simp only [genOscTableFor, genOscTable, hl2]
+    have : genOscCols Generated.pfidFill true (os.map (·.1)).length (os.map (·.2.1)) (os.map (·.2.2)) =
+        some (oscCols .pfid (os.map (·.1)).length (os.map (·.2.1)) (os.map (·.2.2))) := by
+      simp only [Generated.pfidFill, genOscCols, concat_cols, oscCols]
+      simp
+    rw [this]
+    rfl
+
+/-- **osc_columns_match_labels for the code as written now**: in the table the regenerated descriptors define, the
+    column under `<label>_cos` / `<label>_sin` is the cosine / sine computed from the frequency and rate declared for
+    that label — any number of oscillations, all three kernels. -/
+theorem osc_columns_match_labels_generated (k : Kernel) (hk : k ≠ .noIrfOld) (os : List OscDecl)
+    (hn : (os.map (·.1)).Nodup) (o : OscDecl) (ho : o ∈ os) :
+    ∃ t, genOscTableFor k (os.map (·.1)) (os.map (·.2.1)) (os.map (·.2.2)) = some t ∧
+      t.colOf (o.1 ++ "_cos") = some (cosOf k o) ∧ t.colOf (o.1 ++ "_sin") = some (sinOf k o) :=
+  ⟨_, generated_osc_table k hk os, osc_columns_match_labels k hk os hn o ho⟩
+
+example : ∃ t, genOscTableFor .noIrf ["a", "b"] [10, 30] [1/2, 2] = some t ∧ t.colOf "b_cos" = some (.oscCos 30 2) := by
+  obtain ⟨t, h, hc, _⟩ := osc_columns_match_labels_generated .noIrf (by decide) [("a", 10, 1/2), ("b", 30, 2)] (by decide)
+    ("b", 30, 2) (by simp)
+  exact ⟨t, h, hc⟩
+
+/-- the descriptor of the loop as it was before fix D5 (`matrix[:, idx + 1] = osc.imag`, `idx += 2`), put through the
+    same interpreter, reproduces the defect: `b_cos` would hold the sine of oscillation `a` -/
+example :
+    (genOscTable Generated.dampedOscillationLabels
+      (.zipLoop ["frequency", "rate"] ["frequencies", "rates"] [⟨.idx, .real, none⟩, ⟨.idxPlus 1, .imag, none⟩] 2)
+      false ["a", "b"] [10, 30] [1/2, 2]).bind (·.colOf "b_cos") = some (.oscSin 10 (1/2)) := by decide +kernel
+
+/-- spectral megacomplex: labels = the keys of `shape` in dict order, column `i` = `i`-th value -/
+theorem generated_spectral_table (shape : List (String × String)) :
+    genSpectralTable Generated.spectralLabels Generated.spectralFill shape = some (spectralTable shape) := by
+  have hl : Generated.spectralLabels.eval { lists := [("self.shape", shape.map (·.1))] } = some (shape.map (·.1)) := by
+    have := eval_comp_attr { lists := [("self.shape", shape.map (·.1))] } [.var] "self.shape" (shape.map (·.1)) id rfl
+      (fun x => render_var _ x)
+    simpa [Generated.spectralLabels] using this
+  simp only [genSpectralTable, hl]
+  simp [Generated.spectralFill, genSpectralCols, spectralTable]
+
+theorem spectral_columns_match_labels_generated (shape : List (String × String)) (hn : (shape.map (·.1)).Nodup)
+    (p : String × String) (hp : p ∈ shape) :
+    ∃ t, genSpectralTable Generated.spectralLabels Generated.spectralFill shape = some t ∧ t.colOf p.1 = some (.shape p.2) :=
+  ⟨_, generated_spectral_table shape, spectral_columns_match_labels shape hn p hp⟩
+
+example : ∃ t, genSpectralTable Generated.spectralLabels Generated.spectralFill [("s1", "sh1"), ("s2", "sh2")] = some t ∧
+    t.colOf "s2" = some (.shape "sh2") :=
+  spectral_columns_match_labels_generated _ (by decide) ("s2", "sh2") (by simp)
+
+/-- coherent artifact: labels `coherent_artifact_<i>_<label>` for `i = 1 … order`, column `i − 1` written by the `i`-th
+    store of the kernel (guarded by `order > i − 1`) -/
+theorem generated_artifact_table (order : Nat) (label : String) :
+    genArtifactTable Generated.coherentArtifactLabels Generated.coherentArtifactFill order label = artifactTable order label := by
+  unfold genArtifactTable artifactTable
+  by_cases h : 1 ≤ order ∧ order ≤ 3
+  · rw [if_pos h, if_pos h]
+    have hl : Generated.coherentArtifactLabels.eval { scalars := [("self.label", label)], nats := [("self.order", order)] } =
+        some ((List.range order).map (fun i => artifactLabel label (i + 1))) :=
+      eval_comp_range1 { scalars := [("self.label", label)], nats := [("self.order", order)] }
+        [.lit "coherent_artifact_", .var, .lit "_", .attr "self.label"] "self.order" order
+        (fun x => "coherent_artifact_" ++ x ++ "_" ++ label) (lookup_head _ _ _)
+        (fun x => render_artifact _ label (lookup_head _ _ _) x)
+    rw [hl]
+    have ho : order = 1 ∨ order = 2 ∨ order = 3 := by omega
+    rcases ho with rfl | rfl | rfl <;> rfl
+  · rw [if_neg h, if_neg h]
+
+theorem artifact_columns_match_labels_generated (order : Nat) (label : String) (t : Table)
+    (h : genArtifactTable Generated.coherentArtifactLabels Generated.coherentArtifactFill order label = some t)
+    (i : Nat) (hi : i < order) : t.colOf (artifactLabel label (i + 1)) = some (.artifact (i + 1)) :=
+  artifact_columns_match_labels order label t (by rw [← generated_artifact_table]; exact h) i hi
+
+example : ((genArtifactTable Generated.coherentArtifactLabels Generated.coherentArtifactFill 3 "m2").getD default).colOf
+    "coherent_artifact_2_m2" = some (.artifact 2) :=
+  artifact_columns_match_labels_generated 3 "m2" _ rfl 1 (by decide)
+
+/-- baseline (`f"{dataset_model.label}_baseline"`) and clp guide (`self.target`): one label, one column -/
+theorem generated_baseline_guide_tables (ds target : String) :
+    genBaselineTable Generated.baselineLabels ds = some (baselineTable ds) ∧
+    genGuideTable Generated.clpGuideLabels target = some (guideTable target) := by
+  constructor
+  · simp [genBaselineTable, genOneColumnTable, Generated.baselineLabels, LabelExpr.eval, renderParts, List.lookup, baselineTable]
+  · simp [genGuideTable, genOneColumnTable, Generated.clpGuideLabels, LabelExpr.eval, renderParts, List.lookup, guideTable]
+
+example : genBaselineTable Generated.baselineLabels "d1" = some ⟨["d1_baseline"], [.ones]⟩ := by decide +kernel
+
+/-- the decay family: `DecayMegacomplex` returns the compartments of the initial concentration that the K-matrix
+    involves (in the order of the initial concentration), the parallel / sequential megacomplexes their own list -/
+theorem generated_decay_labels (ic : IC) (k : KMat) (comps : List String) :
+    genDecayLabels Generated.decayLabels ic k = some (getCompartments ic k) ∧
+    genCompartmentLabels Generated.decayParallelLabels comps = some comps ∧
+    genCompartmentLabels Generated.decaySequentialLabels comps = some comps := by
+  refine ⟨?_, rfl, rfl⟩
+  simp only [genDecayLabels, Generated.decayLabels, LabelExpr.eval, LSrc.items, List.lookup]
+  simp only [show ("self.get_k_matrix().involved_compartments()" == "dataset_model.initial_concentration.compartments") = false by decide,
+    beq_self_eq_true, Option.map_some]
+  rw [mapM_some_map _ _ id (fun x _ => render_var _ x)]
+  simp [getCompartments]
+
+example : genDecayLabels Generated.decayLabels ⟨["s3", "s1", "s2"], [5, 7, 9], []⟩ [⟨"s2", "s1", 1⟩] = some ["s1", "s2"] := by
+  decide +kernel
+
+/-- **`finalize_data` selects by labels the table declares**: every `….sel(clp_label=<expr>)` of the damped-oscillation
+    and PFID `finalize_data` evaluates to labels of the megacomplex' own table -/
+theorem generated_osc_selections (labels : List String) :
+    ∀ p ∈ Generated.dampedOscillationSelections ++ Generated.pfidSelections,
+      ∃ ls, p.2.eval (oscEnv labels) = some ls ∧ ∀ l ∈ ls, l ∈ oscLabels labels := by
+  intro p hp
+  have hcos : (LabelExpr.comp [.var, .lit "_cos"] (.attr "self.labels") none).eval (oscEnv labels) =
+      some (labels.map (· ++ "_cos")) := eval_comp_attr _ _ _ labels (· ++ "_cos") rfl (fun x => render_suffix _ x "_cos")
+  have hsin : (LabelExpr.comp [.var, .lit "_sin"] (.attr "self.labels") none).eval (oscEnv labels) =
+      some (labels.map (· ++ "_sin")) := eval_comp_attr _ _ _ labels (· ++ "_sin") rfl (fun x => render_suffix _ x "_sin")
+  simp only [Generated.dampedOscillationSelections, Generated.pfidSelections, List.cons_append, List.nil_append,
+    List.mem_cons, List.not_mem_nil, or_false] at hp
+  rcases hp with rfl | rfl | rfl | rfl | rfl | rfl | rfl | rfl | rfl | rfl <;>
+    first
+    | exact ⟨_, hcos, fun l hl => by unfold oscLabels; exact List.mem_append_left _ hl⟩
+    | exact ⟨_, hsin, fun l hl => by unfold oscLabels; exact List.mem_append_right _ hl⟩
+
+/-- the coherent artifact and the baseline select exactly their own label list -/
+theorem generated_artifact_baseline_selections :
+    (∀ p ∈ Generated.coherentArtifactSelections, p.2 = Generated.coherentArtifactLabels) ∧
+    (∀ p ∈ Generated.baselineSelections, p.2 = Generated.baselineLabels) := by
+  constructor <;> decide
+
+/-! ## 8. Linked groups: the order of the datasets
+
+At one aligned global index the datasets of a linked group are stacked on the union of their clp labels (first seen
+first, `alignMatrices` / `align_full_clp_labels`); each dataset then reports, for each of its own labels `l`,
+`clps[full_labels.index(l)]`. -/
+
+/-- permuting the datasets permutes the union label list — no label is lost, none appears twice -/
+theorem unionLabels_perm (ls ls' : List (List String)) (hp : ls'.Perm ls) (hn : ∀ l ∈ ls, l.Nodup) :
+    (unionLabels ls').Perm (unionLabels ls) ∧ (unionLabels ls).Nodup :=
+  ⟨unionLabels_perm_lem ls ls' hp hn, unionLabels_nodup_lem ls hn⟩
+
+example : unionLabels [["s2", "s3"], ["s1", "s2"]] = ["s2", "s3", "s1"] ∧ unionLabels [["s1", "s2"], ["s2", "s3"]] = ["s1", "s2", "s3"] ∧
+    (unionLabels [["s2", "s3"], ["s1", "s2"]]).Perm (unionLabels [["s1", "s2"], ["s2", "s3"]]) :=
+  ⟨by decide, by decide, (unionLabels_perm _ _ (List.Perm.swap _ _ []) (by decide)).1⟩
+
+/-- **linked_clps_by_label.** What a dataset reports under its own labels does not depend on the order of the union
+    label list: reading the re-ordered coefficient vector through the re-ordered list gives the same clp per label. -/
+theorem linked_clps_by_label (U U' : List String) (c : Vec) (labels : List String) (hsub : ∀ l ∈ labels, l ∈ U') :
+    reorderVec U' (reorderVec U c U') labels = reorderVec U c labels := by
+  simp only [reorderVec]
+  apply List.map_congr_left
+  intro l hl
+  exact getD_map_idxOf U' (fun l => c.getD (U.idxOf l) 0) l (hsub l hl)
+
+example : reorderVec ["s2", "s3", "s1"] (reorderVec ["s1", "s2", "s3"] [10, 20, 30] ["s2", "s3", "s1"]) ["s1", "s2"] =
+    reorderVec ["s1", "s2", "s3"] [10, 20, 30] ["s1", "s2"] ∧ reorderVec ["s1", "s2", "s3"] [10, 20, 30] ["s1", "s2"] = [10, 20] :=
+  ⟨linked_clps_by_label _ _ _ _ (by decide), by decide +kernel⟩
+
+/-- **alignMatrices_perm.** Stack the datasets of an aligned index in another order: the union labels are permuted, and
+    the stacked (row, data point) pairs are the same pairs — in the order of the datasets — with every row re-ordered by
+    label. (`bs`: per dataset its labelled matrix at this index, its scale and its data column.) -/
+theorem alignMatrices_perm (bs bs' : List ((LMat2 × Rat) × Vec)) (hp : bs'.Perm bs) (h2 : 2 ≤ bs.length)
+    (hnd : ∀ b ∈ bs, b.1.1.labels.Nodup) (hlen : ∀ b ∈ bs, b.2.length = b.1.1.m.length) :
+    (alignMatrices (bs'.map (·.1))).labels.Perm (alignMatrices (bs.map (·.1))).labels ∧
+    (alignMatrices (bs.map (·.1))).labels.Nodup ∧
+    ((alignMatrices (bs'.map (·.1))).m.zip (bs'.flatMap (·.2))).Perm
+      ((reorderCols (alignMatrices (bs.map (·.1))).labels (alignMatrices (bs.map (·.1))).m
+          (alignMatrices (bs'.map (·.1))).labels).zip (bs.flatMap (·.2))) :=
+  alignMatrices_perm_lem bs bs' hp h2 hnd hlen
+
+/-- two datasets sharing the label `s2` (the second one scaled), with their data columns -/
+def exampleLinked : List ((LMat2 × Rat) × Vec) :=
+  [((⟨["s1", "s2"], [[1, 2], [0, 1]]⟩, 1), [3, 1]), ((⟨["s2", "s3"], [[1, 0], [1, 1], [0, 2]]⟩, 2), [2, 5, 4])]
+
+example : (alignMatrices (exampleLinked.map (·.1))).labels = ["s1", "s2", "s3"] ∧
+    (alignMatrices (exampleLinked.reverse.map (·.1))).labels = ["s2", "s3", "s1"] ∧
+    (alignMatrices (exampleLinked.map (·.1))).m = [[1, 2, 0], [0, 1, 0], [0, 2, 0], [0, 2, 2], [0, 0, 4]] ∧
+    (alignMatrices (exampleLinked.reverse.map (·.1))).m = [[2, 0, 0], [2, 2, 0], [0, 4, 0], [2, 0, 1], [1, 0, 0]] := by
+  decide +kernel
+
+/-- **linked_fit_perm.** The fit of a linked group at an aligned index does not depend on the order of the datasets:
+    if `c` solves the normal equations of the stacked problem, the coefficients re-ordered by label solve those of the
+    problem stacked in the other order, and every data point keeps its residual. -/
+theorem linked_fit_perm (bs bs' : List ((LMat2 × Rat) × Vec)) (hp : bs'.Perm bs) (h2 : 2 ≤ bs.length)
+    (hnd : ∀ b ∈ bs, b.1.1.labels.Nodup) (hlen : ∀ b ∈ bs, b.2.length = b.1.1.m.length)
+    (hne : (alignMatrices (bs.map (·.1))).m ≠ []) (c : Vec)
+    (hsol : isNormalSol (alignMatrices (bs.map (·.1))).m (bs.flatMap (·.2)) c = true) :
+    isNormalSol (alignMatrices (bs'.map (·.1))).m (bs'.flatMap (·.2))
+      (reorderVec (alignMatrices (bs.map (·.1))).labels c (alignMatrices (bs'.map (·.1))).labels) = true ∧
+    (((alignMatrices (bs'.map (·.1))).m.zip (bs'.flatMap (·.2))).map (fun p => p.2 - dot p.1
+      (reorderVec (alignMatrices (bs.map (·.1))).labels c (alignMatrices (bs'.map (·.1))).labels))).Perm
+      (((alignMatrices (bs.map (·.1))).m.zip (bs.flatMap (·.2))).map (fun p => p.2 - dot p.1 c)) := by
+  obtain ⟨hperm, hU, hpairs⟩ := alignMatrices_perm bs bs' hp h2 hnd hlen
+  have h2' : 2 ≤ bs'.length := by rw [hp.length_eq]; exact h2
+  have hw := alignMatrices_row_width (bs.map (·.1)) (by simpa using h2)
+  have hylen := stacked_data_length bs h2 hlen
+  have hylen' := stacked_data_length bs' h2' (fun b hb => hlen b (hp.subset hb))
+  generalize alignMatrices (bs.map (·.1)) = A at *
+  generalize alignMatrices (bs'.map (·.1)) = A' at *
+  obtain ⟨hsol', _⟩ := ls_perm_equivariant A.labels A'.labels A.m (bs.flatMap (·.2)) c hne hU hperm hw hsol
+  have hc : c.length = A.labels.length := by
+    simp only [isNormalSol, Bool.and_eq_true, beq_iff_eq] at hsol
+    rw [hsol.1, ncols_of_rows A.m A.labels.length hne hw]
+  have hne' : reorderCols A.labels A.m A'.labels ≠ [] := by
+    cases hA : A.m with
+    | nil => exact absurd hA hne
+    | cons _ _ => simp [reorderCols]
+  have hwr : ∀ row ∈ reorderCols A.labels A.m A'.labels, row.length = A'.labels.length := by
+    intro row hrow
+    simp only [reorderCols, List.mem_map] at hrow
+    obtain ⟨_, _, rfl⟩ := hrow
+    simp
+  constructor
+  · rw [isNormalSol_rows_perm (reorderCols A.labels A.m A'.labels) A'.m (bs.flatMap (·.2)) (bs'.flatMap (·.2)) _
+      A'.labels.length (by simpa [reorderCols] using hylen) hylen' hpairs hne' hwr]
+    exact hsol'
+  · refine (residual_pairs_perm _ _ _ _ _ hpairs).trans ?_
+    rw [residual_pairs_reorder A.labels A'.labels A.m _ c hU hperm hw hc]
+
+/-- the two stacking orders of `exampleLinked`: (s1, s2, s3) = (25/41, 49/41, 87/82) solves the first (non-zero residual),
+    the re-ordered (s2, s3, s1) the second -/
+example :
+    isNormalSol (alignMatrices (exampleLinked.reverse.map (·.1))).m (exampleLinked.reverse.flatMap (·.2))
+      (reorderVec (alignMatrices (exampleLinked.map (·.1))).labels [25/41, 49/41, 87/82] (alignMatrices (exampleLinked.reverse.map (·.1))).labels) = true :=
+  (linked_fit_perm exampleLinked exampleLinked.reverse (List.reverse_perm _) (by decide) (by decide) (by decide)
+    (by decide +kernel) [25/41, 49/41, 87/82] (by decide +kernel)).1
 
 end Glotaran.C06
